@@ -502,7 +502,7 @@ def run(chk):
         "variants, that cmp is antisymmetric and Equal only on identical values, and that clone rebuilds the "
         "same node. Whole-tree behaviour follows from the pre-order zip once per-node comparison and arity are "
         "covered.")
-    chk.trusted = ["model of iter/tree.rs generic iterators (msverif.builtins tree iterators)", "factgen THIR; msverif.interp"]
+    chk.trusted = ["factgen THIR; msverif.interp"]
     chk.assumptions = ["key / hash types' own Eq/Ord/Hash are structural (opaque constants)",
                        "deep trees: decided for one level + arity; deeper nesting follows from the generic pre-order traversal"]
     census(chk, F)
@@ -513,3 +513,9 @@ def run(chk):
     check_ms_clone(chk, F)
     from . import wholedesc
     chk.guard("R19.7", "whole-descriptors", wholedesc.check_identity, chk, F, "R19.7")
+    # Eq / Ord / Hash of Miniscript and the policies compare pre- / post-order traversals, evaluated above through the
+    # analyser's model of the iterators: the model is the source's behaviour (rule shared with C20)
+    from . import c20
+    from ..report import RuleAlias
+    chk.guard("R19.8", "tree-iterators", c20.check_tree_iterators, RuleAlias(chk, {"R20.10": "R19.8"}, "the traversals "
+              "equality, ordering and hashing compare"), F)
